@@ -10,6 +10,12 @@ def data_leg(name, n, opts=None, require=None, nontrivial=None):
     return d
 
 
+def model(cfg, spec="ChmuxData.tla", **kw):
+    d = {"kind": "model", "spec": spec, "cfg": cfg}
+    d.update(kw)
+    return d
+
+
 CHECKS = {
     "C01": {
         "rule": "seeded chmux scenarios (config pair, message sizes 0..3x max_data, send/try_send/send_chunks/port batches, "
@@ -18,6 +24,8 @@ CHECKS = {
         "assumptions": ["single-threaded schedules (await-to-await atomicity)", "TLC and the Json module are trusted",
                         "payload bytes compared verbatim (frames <= 96 bytes)"],
         "legs": [
+            model("ChmuxData_MC_small.cfg", min_states=100000),
+            model("ChmuxData_DevF1.cfg", expect_violation="C01_Prefix"),
             data_leg("data_cancel", (120, 3000), {"cancel": 1, "ports": 1},
                      require={r'"ev":"api_cancel"': 20, r'"res":"cancelled"': 3, r'"kind":"try_send"': 20, r'"kind":"send_chunks"': 20,
                               r'"res":"chunks"': 10},
@@ -30,6 +38,8 @@ CHECKS = {
                 "(a PortCredits frame emitted but delivered after further data frames)",
         "assumptions": ["frames decoded by Wire!Dec (independent of remoc's decoder)"],
         "legs": [
+            model("ChmuxData_MC_small.cfg", min_states=100000),
+            model("ChmuxData_MC_ports.cfg", min_states=10000),
             data_leg("data_cancel", (120, 3000), {"cancel": 1, "ports": 1}, require={r'"b":\[9,': 50, r'"b":\[8,': 10},
                      nontrivial=[r'"b":\[9,']),
             data_leg("data_big", (40, 1000), {"cancel": 0, "ports": 1, "len_factor": 6, "sends": 8}, nontrivial=[r'"b":\[9,']),
@@ -40,6 +50,11 @@ CHECKS = {
                 "cancelled operation or a port batch",
         "assumptions": ["liveness judged at quiescence of a healthy transport (all frames delivered, receivers waiting)"],
         "legs": [
+            model("ChmuxData_MC_small.cfg", min_states=100000),
+            model("ChmuxData_MC_ports.cfg", min_states=10000),
+            model("ChmuxData_MC_rbuf6.cfg", min_states=1000),
+            model("ChmuxData_DevF2.cfg", expect_violation="C03_Conservation"),
+            model("ChmuxData_DevF3.cfg", expect_violation="C03_NoEmptyPorts"),
             data_leg("data_cancel", (150, 3000), {"cancel": 1, "ports": 1}, require={r'"ev":"quiescent"': 100, r'"kind":"connect"': 10},
                      nontrivial=[r'"ev":"api_cancel"']),
             data_leg("data_ports", (80, 2000), {"cancel": 1, "ports": 1, "sends": 10}, nontrivial=[r'"kind":"connect"']),
